@@ -180,6 +180,8 @@ func (ev *Evaluator) Eval(e Expr, env *Env) Value {
 	switch v := e.(type) {
 	case IntLit:
 		return v.V
+	case IntSrc:
+		return v.V
 	case StrSrc:
 		return v.V
 	case StrLit:
